@@ -159,8 +159,9 @@ def call_fixed(fn, f, dx, z, lam, dxo, M, N, sx, sy, method, sform='tuple', hfor
 
 def tol_of(c, tol=1e-9):
     """comparison tolerance of a case: a shift handed over as a float32 array is divided by output_dx in float32 by NumPy's
-    promotion rules (the user's own precision), so those cases are compared at float32 accuracy"""
-    return 1e-5 if c.get('hform') == 'array32' or c.get('qform') == 'array32' else tol
+    promotion rules (the user's own precision), so those cases are compared at float32 accuracy
+    (error ~ 2 pi * shift * 6e-8 * axis length; 2e-4 leaves a factor 10 above the largest generated case)"""
+    return 2e-4 if c.get('hform') == 'array32' or c.get('qform') == 'array32' else tol
 
 
 def check_wavefront(w, what, data_shape=None, dx=None, wavelength=None, space=None):
